@@ -23,6 +23,7 @@ import os
 import random
 from pathlib import Path
 
+import c06_splat as splat
 import c06_universe as u6
 import c15_universe as uni
 import lib
@@ -454,7 +455,7 @@ def run_module(src):
     cname = lambda f: f["code"].name if hasattr(f.get("code"), "name") else str(f.get("code"))
     for n in tree.body:
         if isinstance(n, ast.FunctionDef) and n.name.startswith("case_"):
-            callnode = n.body[0].value
+            callnode = n.body[-1].value  # the call is the returned expression of the last statement
             fs = by_line.get(callnode.lineno, [])
             case_lines.add(callnode.lineno)
             codes, names = [], []
@@ -930,11 +931,14 @@ def run(tier: str, replay: str | None = None):
     if replay:
         r = json.loads(Path(replay).read_text())
         c = r["input"]
-        groups.append([(c["sig"], [c["call"]])])
+        corpus = []
+        if "splat" not in c:
+            groups.append([(c["sig"], [c["call"]])])
     else:
         corpus = json.loads(CORPUS.read_text()) if CORPUS.exists() else []
-        if corpus:
-            groups.append([(c["sig"], [c["call"]]) for c in corpus])
+        c = {}
+        if any("sig" in x for x in corpus):
+            groups.append([(x["sig"], [x["call"]]) for x in corpus if "sig" in x])
         n_mod = 60 if tier == "quick" else 600
         sid = 1000
         for _ in range(n_mod):
@@ -1037,18 +1041,84 @@ def run(tier: str, replay: str | None = None):
             impl[(gi, name)] = (sig, call, r, enc, case_in)
             terms.append(f"check_call atom_ops rrs_limit (SU [A_litNone]) {coq_sig(sig)} {coq_call(sig, call)}")
             meta.append((gi, name))
+    # ---- stream 2: splat arguments that are unions of tuple / dict literals / TypedDicts ----
+    splat_pending = []
+    hist["splat"] = {"cases": 0, "kinds": {}, "must_diagnose": 0, "must_accept": 0, "modelled": 0, "different_lengths": 0}
+    splat_groups = []
+    if replay:
+        if "splat" in c:
+            splat_groups.append([(c["splat"]["sig"], [c["splat"]["case"]])])
+    else:
+        for cc in corpus:
+            if "splat" in cc:
+                splat_groups.append([(cc["splat"]["sig"], [cc["splat"]["case"]])])
+        sid = 0
+        for _ in range(14 if tier == "quick" else 160):
+            g = []
+            for _ in range(6):
+                sid += 1
+                ss = splat.gen_sig(rng, sid)
+                g.append((ss, [splat.gen_case(rng, ss) for _ in range(7)]))
+            splat_groups.append(g)
+    for gi, g in enumerate(splat_groups):
+        out_src = [u6.PRELUDE]
+        cases2 = {}
+        for k, (ss, cs) in enumerate(g):
+            ss["id"] = gi * 100 + k
+            src1, callee = splat.render_sig(ss)
+            out_src.append(src1)
+            for j, cs1 in enumerate(cs):
+                name = f"case_s{ss['id']}_{j}"
+                pre, body = splat.render_case(name, callee, cs1)
+                out_src += [pre, body]
+                cases2[name] = (ss, cs1, callee)
+        try:
+            res2, mod2, other2 = run_module("\n".join(out_src))
+        except Exception as ex:
+            rep.harness_error(f"splat module {gi} failed: {ex!r}")
+            continue
+        hist["stray_errors"] += len(other2)
+        for name, (ss, cs1, callee) in cases2.items():
+            r = res2[name]
+            hist["calls"] += 1
+            hist["splat"]["cases"] += 1
+            hist["splat"]["kinds"][cs1["kind"]] = hist["splat"]["kinds"].get(cs1["kind"], 0) + 1
+            diagnosed2 = bool(r["codes"])
+            hist["diagnosed" if diagnosed2 else "accepted"] += 1
+            must, witness = splat.oracle(getattr(mod2, callee), ss, cs1)
+            hist["splat"]["must_diagnose" if must else "must_accept"] += 1
+            difflen = cs1["kind"] == "starlit" and len({len(a) for a in cs1["alts"]}) > 1
+            hist["splat"]["different_lengths"] += int(difflen)
+            sig2 = {"id": ss["id"], "flavor": "function", "tvs": [], "ret": [A("int")],
+                    "params": [dict(p, default=None if p["default"] is None else {"o": p["default"]}) for p in ss["params"]]}
+            # the model sees the union as unite_values leaves it: literal alternatives == to an earlier one are gone
+            mc = splat.model_call(ss, splat.collapse_equal(cs1) or cs1)
+            case_in = {"splat": {"sig": ss, "case": cs1}, "source": splat.render_case(name, callee, cs1)[1].strip(), "def": splat.render_sig(ss)[0].strip()}
+            seen.add(json.dumps(case_in["splat"], sort_keys=True))
+            key2 = (10_000 + gi, name)
+            collapsed = splat.collapse_equal(cs1)
+            eqlit_verdict = splat.oracle(getattr(mod2, callee), ss, collapsed)[0] if collapsed is not None else None
+            splat_pending.append((key2, case_in, must, diagnosed2, witness, difflen, r, eqlit_verdict))
+            if mc is not None:
+                hist["splat"]["modelled"] += 1
+                enc = uni.from_value(r["inferred"]) if r["inferred"] is not None else None
+                impl[key2] = (sig2, mc, r, enc, case_in)
+                terms.append(f"check_call atom_ops rrs_limit (SU [A_litNone]) {coq_sig(sig2)} {coq_call(sig2, mc)}")
+                meta.append(key2)
     hist["result_fallback_can_assign"] = fallback[0]
 
     model_ok = proof is not None and not any("build failed" in b for b in proof.broken)
     if not model_ok and gen is not None:
         model_ok, _ = lib.coq_make(["theories/Call/Model.vo", "theories/Gen/CallObjs.vo", "theories/Gen/Solve.vo"], timeout=600)
     corr = []
+    model_kinds_by_key = {}
     if model_ok and terms:
         try:
             results = lib.coq_eval(HEADER, terms, name="c06", shard=200)
             for key, t in zip(meta, results):
                 sig, call, r, enc, case_in = impl[key]
                 m = decode_model(t, sig)
+                model_kinds_by_key[key] = m["kinds"]
                 for k in m["kinds"]:
                     hist["model_kinds"][k] = hist["model_kinds"].get(k, 0) + 1
                 i_arg = "incompatible_argument" in r["codes"]
@@ -1069,6 +1139,22 @@ def run(tier: str, replay: str | None = None):
             _cleanup_cases("c06")
             rep.violation({"kind": "broken-correspondence", "correspondence": "Call.Model.check_call vs NameCheckVisitor on generated modules", "detail": str(ex)[-1500:]}, no_failing_input=True)
 
+    for key2, case_in, must, diagnosed2, witness, difflen, r, eqlit_verdict in splat_pending:
+        if must == diagnosed2:
+            continue
+        # known finding: tuples of different lengths are merged into one star argument of unknown length;
+        # attributed only under that guard and when the implementation does what the model of the merged
+        # call (Call/Model.v with a_star = the union of all elements) predicts
+        if difflen and key2 in model_kinds_by_key and bool(model_kinds_by_key[key2]) == diagnosed2:
+            rep.known(splat.F_DIFFLEN, splat.FINDING_TEXT[splat.F_DIFFLEN])
+        elif must and eqlit_verdict is not None and eqlit_verdict == diagnosed2:
+            # known finding: a literal alternative == to an earlier one is dropped by unite_values; attributed only
+            # when the verdict is the one the oracle gives for the call WITHOUT the dropped alternatives
+            rep.known(splat.F_EQLIT, splat.FINDING_TEXT[splat.F_EQLIT])
+        elif must:
+            oracle_fail.append((case_in, {"what": "a splat alternative fails to bind or passes a non-member, but the call is accepted", "witness": witness, "impl_codes": r["codes"]}))
+        else:
+            oracle_fail.append((case_in, {"what": "every splat alternative binds and passes members only, but the call is diagnosed", "impl_codes": r["codes"], "impl_descr": r["descr"]}))
     if os.environ.get("C06_DEBUG"):
         for case_in, obs in corr[:60]:
             print("MISMATCH", case_in["source"], "|", case_in["def"].splitlines()[-2].strip() if "\n" in case_in["def"] else case_in["def"], "|", obs["why"], obs["impl"], obs["model"])
